@@ -9,6 +9,10 @@ package main
 // occurrence of the raw login-destination field is reported byte for byte together with the
 // destination the page was rendered for.
 //
+// Op `sreq` (round 5) is `req` with two more dimensions: the life-cycle state of the daemon
+// (ready / sealed = signer not loaded) and of the presented session credential (absent, garbage,
+// signed by a foreign key, live, and the same genuine credentials after their expiry).
+//
 // Output, one line per op:
 //   <op> <n responses> { R <status> <html 0/1> <hex Content-Type on the wire> <hex first 512 body bytes> <canaryElems> <canaryAttrs> <reflected 0/1> <n inputs>
 //        { I <hex norm> <hex seg> <hex x/net value> <hex x/net reading of seg, `tok` format> } [ B <hex base64 operand> ] }
@@ -258,6 +262,99 @@ func (e *vfC18Env) cookie(user string, level int) map[string]string {
 	return map[string]string{"Cookie": c.Name + "=" + c.Value}
 }
 
+// mintCookie: an auth cookie value for user at level whose JWT expires lifetime seconds
+// from now (negative: a genuine, server-signed session that has expired since), signed with the
+// daemon's signer or, with foreign, by a throw-away key the daemon never trusted.
+func (e *vfC18Env) mintCookie(user string, level int, lifetime int64, foreign bool) map[string]string {
+	if foreign {
+		key, err := ecdsa.GenerateKey(elliptic.P256(), rand.Reader)
+		if err != nil {
+			e.t.Fatal(err)
+		}
+		e.state.Mutex.Lock()
+		own := e.state.Signer
+		e.state.Signer = key
+		e.state.Mutex.Unlock()
+		defer func() {
+			e.state.Mutex.Lock()
+			e.state.Signer = own
+			e.state.Mutex.Unlock()
+		}()
+	}
+	val, err := e.state.genNewSerializedAuthJWT(user, level, lifetime)
+	if err != nil {
+		e.t.Fatal(err)
+	}
+	return map[string]string{"Cookie": authCookieName + "=" + val}
+}
+
+// session: the Cookie header of a session kind. Live sessions: pw (password only), full, admin,
+// autoadmin; none; bad (not a JWT); foreign (well-formed JWT, unknown key); expired* = the same
+// genuine credentials presented after their expiry; notyet = genuine, not valid yet.
+func (e *vfC18Env) session(kind string) (map[string]string, bool) {
+	full := AuthTypePassword | AuthTypeU2F | AuthTypeTOTP
+	switch kind {
+	case "none":
+		return nil, true
+	case "bad":
+		return map[string]string{"Cookie": authCookieName + "=garbage"}, true
+	case "pw":
+		return e.cookie("username", AuthTypePassword), true
+	case "full":
+		return e.cookie("vfuser", full), true
+	case "admin":
+		return e.cookie("vfadmin", full), true
+	case "autoadmin":
+		return e.cookie("vfautoadmin", full), true
+	case "foreign":
+		return e.mintCookie("vfuser", full, 3600, true), true
+	case "expired":
+		return e.mintCookie("vfuser", full, -3600, false), true
+	case "expiredpw":
+		return e.mintCookie("username", AuthTypePassword, -3600, false), true
+	case "expiredadmin":
+		return e.mintCookie("vfadmin", full, -1, false), true
+	case "expiredforeign":
+		return e.mintCookie("vfuser", full, -3600, true), true
+	}
+	return nil, false
+}
+
+// request sends one request while the daemon is in the given life-cycle state: "ready", or
+// "sealed" = the signer is not loaded (between a (re)start and the unsealing of the key).
+// The session credential is minted before the daemon is sealed, as a browser would hold it.
+func (e *vfC18Env) request(daemon, method, path, query, body, accept, sessionKind string) string {
+	target := path
+	if query != "" {
+		target += "?" + query
+	}
+	hdr, _ := e.session(sessionKind)
+	if daemon == "sealed" {
+		e.state.Mutex.Lock()
+		signer := e.state.Signer
+		e.state.Signer = nil
+		e.state.Mutex.Unlock()
+		defer func() {
+			e.state.Mutex.Lock()
+			e.state.Signer = signer
+			e.state.Mutex.Unlock()
+		}()
+	}
+	st, ct, rb, errs := e.send(e.addr, vfC18RawAccept(method, target, "keymaster.example", accept, hdr, body))
+	if errs != "" {
+		return "R 0 0 - - 0 0 0 0 E " + vfHex(errs)
+	}
+	form, _ := url.ParseQuery(body)
+	if q, err := url.ParseQuery(query); err == nil && form != nil {
+		for k, v := range q {
+			if _, dup := form[k]; !dup {
+				form[k] = v
+			}
+		}
+	}
+	return e.pageLine(vfC18Scan(st, ct, rb), vfC18Candidates(method, target, form))
+}
+
 // vfC18Candidates: the destinations the failure page may legitimately be rendered for, most
 // specific first, computed with the real helpers: the POSTed login_destination as filtered by
 // getLoginDestination (used when the handler parsed the form before failing), the request URL
@@ -407,7 +504,7 @@ func TestVerifC18(t *testing.T) {
 		}
 		need := map[string]int{"loginfail": 3, "login2fa": 1, "root": 1, "urlget": 3, "urlpost": 4,
 			"profile": 4, "users": 1, "newtotp": 1, "bootstrap": 1, "showtoken": 1, "direct": 3,
-			"direct2fa": 1, "admin": 1, "esc": 1, "tok": 1, "b64": 1, "req": 6, "u2freg": 4}
+			"direct2fa": 1, "admin": 1, "esc": 1, "tok": 1, "b64": 1, "req": 6, "u2freg": 4, "sreq": 7}
 		if n, known := need[f[0]]; !known || len(args) != n {
 			ok = false
 		}
@@ -572,37 +669,20 @@ func TestVerifC18(t *testing.T) {
 			state.DeleteUserProfile(user)
 		case "req": // <method> <path> <raw query> <form body> <Accept or empty> <cookie kind>: any route, any error path
 			env.setWebUI(twoFA...)
-			target := args[1]
-			if args[2] != "" {
-				target += "?" + args[2]
+			outs = append(outs, env.request("ready", args[0], args[1], args[2], args[3], args[4], args[5]))
+		case "sreq": // <daemon state> <method> <path> <raw query> <form body> <Accept or empty> <session kind>
+			// the same request in every life-cycle state of the daemon (ready / sealed) and of the
+			// presented session credential (absent, garbage, foreign key, live, expired)
+			env.setWebUI(twoFA...)
+			if args[0] != "ready" && args[0] != "sealed" {
+				vio.emit("bad-op")
+				continue
 			}
-			var hdr map[string]string
-			switch args[5] {
-			case "pw":
-				hdr = env.cookie("username", AuthTypePassword)
-			case "full":
-				hdr = env.cookie("vfuser", full)
-			case "admin":
-				hdr = env.cookie("vfadmin", full)
-			case "autoadmin":
-				hdr = env.cookie("vfautoadmin", full)
-			case "bad":
-				hdr = map[string]string{"Cookie": authCookieName + "=garbage"}
+			if _, known := env.session(args[6]); !known {
+				vio.emit("bad-op")
+				continue
 			}
-			st, ct, rb, errs := env.send(env.addr, vfC18RawAccept(args[0], target, "keymaster.example", args[4], hdr, args[3]))
-			if errs != "" {
-				outs = append(outs, "R 0 0 - - 0 0 0 0 E "+vfHex(errs))
-			} else {
-				form, _ := url.ParseQuery(args[3])
-				if q, err := url.ParseQuery(args[2]); err == nil && form != nil {
-					for k, v := range q {
-						if _, dup := form[k]; !dup {
-							form[k] = v
-						}
-					}
-				}
-				outs = append(outs, env.pageLine(vfC18Scan(st, ct, rb), vfC18Candidates(args[0], target, form)))
-			}
+			outs = append(outs, env.request(args[0], args[1], args[2], args[3], args[4], args[5], args[6]))
 		case "admin": // <Host header>: status page of the admin port (third-party header writer)
 			st, ct, rb, errs := env.send(env.adminAdr, vfC18Raw("GET", "/", args[0], nil, ""))
 			if errs != "" {
